@@ -26,7 +26,11 @@ Open Scope Z_scope.
    pair (ftype, fspell): two spellings of the same type do NOT compare equal. *)
 Record field := { fid : Z; fname : Z; ftype : ptype; fspell : Z; freq : bool }.
 (* Schema(schema_id, fields) *)
-Record ischema := { sid : Z; sfields : list field }.
+Record ischema := { sid : Z; sfields : list field; sstring : Z }.
+(* sstring stands for Schema.schema_string (and any other attribute derived from the fields ONCE, at
+   construction): an ordinary init field that dataclasses.replace, copies and in-place edits of .fields carry
+   along unchanged, so it need not describe sfields.  The harness renders 0 when it does and 1 when it is
+   stale.  Nothing below may consult it: validation is by the fields (C11_arg_object_irrelevant). *)
 
 Definition ptype_eqb (a b : ptype) : bool := ptype_tag a =? ptype_tag b.
 Definition atype_eqb (a b : atype) : bool := atype_tag a =? atype_tag b.
